@@ -85,3 +85,20 @@ Definition undo_obs (c : text * list (N * text * bool)) :=
   let s := urun t (map (fun o => let '(k, a, ci) := o in
                                  if k =? 0 then OCmd a ci else if k =? 1 then OUndo else ORedo) ops) in
   (u_buf s, map (fun e => (e_old e, e_new e)) (u_undo s), map (fun e => (e_old e, e_new e)) (u_redo s)).
+
+From Vicut Require Import Model.Search.
+(** (cached offsets, match starts, cursor byte offset, kind, count): kind 0 [/], 1 [?],
+    2 n/N going forwards, 3 n/N going backwards *)
+Definition search_obs (c : list nat * list nat * nat * N * nat) : option nat :=
+  let '(gidx, starts, cur, kind, count) := c in
+  search_cursor gidx
+    (if kind =? 0 then search_fwd starts cur
+     else if kind =? 1 then search_bwd starts cur
+     else match_step starts cur (kind =? 2) count).
+
+From Vicut Require Import Model.Global.
+(** (clusters, which line texts match, polarity) -> (visited lines, their starts) *)
+Definition global_obs (c : list text * list (text * bool) * bool) :=
+  let '(cl, tbl, pol) := c in
+  let m := fun t => match List.find (fun p => text_eqb (fst p) t) tbl with Some p => snd p | None => false end in
+  map (fun n => (n, line_start cl n)) (global_lines m cl pol).
